@@ -144,8 +144,89 @@ theorem c03_determined_by_subspecs (p : Prims) (rec1 rec2 : Rec σ) (t : V) (sc 
     (∀ sub items acc, listLoop rec1 sub sc items acc = listLoop rec2 sub sc items acc) :=
   ⟨dictLoop_congr p t sc h, fun sub => listLoop_congr sub sc h⟩
 
+/-! ### nested chains: STOP ends the chain it occurs in, and only that one -/
+
+/-- reference for a chain of pure steps: each result feeds the next step, SKIP omits the step,
+    STOP ends the chain with the value reached so far -/
+def chainRef : List (V → V) → V → V
+  | [], t => t
+  | f :: fs, t => match f t with
+    | .skip => chainRef fs t
+    | .stop => t
+    | v => chainRef fs v
+
+def isSentinel : V → Bool
+  | .skip | .stop => true
+  | _ => false
+
+/-- **A tuple / Pipe of pure steps is `chainRef`** (any length, SKIP / STOP at any position). -/
+theorem c03_chain_ref (rec : Rec σ) :
+    ∀ (steps : List Spec) (fs : List (V → V)) (t : V) (cur : σ) (last : Option σ) (st : St),
+      steps.length = fs.length →
+      (∀ i (hi : i < steps.length) (hj : i < fs.length), PureOn rec steps[i] fs[i]) →
+      tupleLoop rec steps t cur last st = (st, .ok (chainRef fs t)) := by
+  intro steps
+  induction steps with
+  | nil => intro fs t cur last st hl _; cases fs <;> simp_all [tupleLoop, chainRef, M.pure_apply]
+  | cons a rest ih =>
+    intro fs t cur last st hl hall
+    cases fs with
+    | nil => simp at hl
+    | cons f frest =>
+      have h0 := hall 0 (by simp) (by simp)
+      simp only [List.getElem_cons_zero] at h0
+      obtain ⟨c, hc⟩ := h0 t (nextScope cur last) st
+      have hrest := fun t' l => ih frest t' (nextScope cur last) l st (by simpa using hl) (by
+        intro i hi hj
+        have := hall (i + 1) (by simp; omega) (by simp; omega)
+        simpa using this)
+      simp only [tupleLoop, M.bind_apply, hc, chainRef]
+      cases hf : f t <;> simp [hrest, M.pure_apply]
+
+/-- the result of a chain is never a sentinel (unless its input was one): STOP and SKIP are
+    consumed by the chain they occur in -/
+theorem chainRef_not_sentinel : ∀ (fs : List (V → V)) (t : V), isSentinel t = false →
+    isSentinel (chainRef fs t) = false := by
+  intro fs
+  induction fs with
+  | nil => intro t h; simpa [chainRef] using h
+  | cons f fs ih =>
+    intro t h
+    simp only [chainRef]
+    cases hf : f t <;> simp only <;> first | exact h | exact ih _ h | exact ih _ (by simp [isSentinel])
+
+/-- **A chain nested in a chain**: `glom(t, ((a₁, …, aₙ), b₁, …))` is `glom(glom(t, (a₁, …, aₙ)), (b₁, …))`
+    — also when some `aᵢ` returned STOP: the inner chain ends there, its value goes on to the outer
+    steps.  (Inlining the inner steps into the outer chain is *not* equivalent: see the example below.) -/
+theorem c03_nested_chain (fs gs : List (V → V)) (t : V) (ht : isSentinel t = false) :
+    chainRef (chainRef fs :: gs) t = chainRef gs (chainRef fs t) := by
+  have h := chainRef_not_sentinel fs t ht
+  simp only [chainRef]
+  cases hv : chainRef fs t <;> simp_all [isSentinel]
+
+/-- … at the level of the interpreter's loop: an inner chain `a` that the evaluator computes as
+    `chainRef fs` (by `c03_chain_ref` one level down) hands its value to the remaining outer steps. -/
+theorem c03_nested_chain_loop (rec : Rec σ) (a : Spec) (rest : List Spec) (fs : List (V → V)) (t : V)
+    (cur : σ) (last : Option σ) (st : St) (ha : PureOn rec a (chainRef fs)) (ht : isSentinel t = false) :
+    ∃ c, tupleLoop rec (a :: rest) t cur last st =
+      tupleLoop rec rest (chainRef fs t) (nextScope cur last) (some c) st := by
+  obtain ⟨c, hc⟩ := ha t (nextScope cur last) st
+  refine ⟨c, ?_⟩
+  have h := chainRef_not_sentinel fs t ht
+  simp only [tupleLoop, M.bind_apply, hc]
+  cases hv : chainRef fs t <;> simp_all [isSentinel]
+
 /-! ### non-vacuity -/
 example : listRef (fun v => match v with | .int 2 => .skip | .int 4 => .stop | v => v)
     [.int 1, .int 2, .int 3, .int 4, .int 5] = [.int 1, .int 3] := by rfl
+
+/-- a STOP inside the inner chain: the outer step still runs on the inner chain's value; the
+    inlined chain would have stopped altogether -/
+example :
+    let stopper : V → V := fun _ => .stop
+    let wrap : V → V := fun v => .list [v]
+    chainRef [chainRef [stopper], wrap] (.int 1) = .list [.int 1] ∧
+    chainRef [stopper, wrap] (.int 1) = .int 1 := by
+  constructor <;> rfl
 
 end Glom.Props.C03
